@@ -1501,7 +1501,9 @@ request_parse(u8 *packet, int length, struct evdns_server_port *port,
 	GET16(additional);
 
 	if (flags & _QR_MASK) return -1; /* Must not be an answer. */
-	flags &= (_RD_MASK|_CD_MASK); /* Only RD and CD get preserved. */
+	/* Only OPCODE, RD and CD get preserved; the opcode is needed below to
+	 * refuse anything but standard queries, and is echoed in that reply. */
+	flags &= (_OP_MASK|_RD_MASK|_CD_MASK);
 
 	server_req = mm_malloc(sizeof(struct server_request));
 	if (server_req == NULL) return -1;
